@@ -29,6 +29,8 @@ import ASV.Proofs.SerialRecord
 import ASV.Proofs.SerialPre
 import ASV.Proofs.SerialQual
 import ASV.Proofs.SerialDom
+import ASV.Proofs.SerialPfam
+import ASV.Proofs.SerialModule
 namespace ASV.C10
 open ASV ASV.Serial
 
@@ -401,7 +403,7 @@ example : (⟨["s"], ["7 (Score: 1.0; E-value: 0.5)"], [], [("acetyl-CoA_7", "34
     the ids stay behind in `db_xref` in sorted order.  `PfamX.wf`: constructor checks, version not 0, distinct
     ids without `:`, a qualifier object with at least one term. -/
 theorem pfam_qualifiers_read_back (p : PfamX) (h : p.wf = true) :
-    PfamX.read p.quals = .ok ({ p with go := p.go.map sortGo }, match p.go with | some g => sortStrs (g.map (·.1)) | none => []) :=
+    PfamX.read p.quals = .ok ({ p with go := p.go.map sortGo }, p.leftXref) :=
   pfam_read_quals p h
 
 /-- the first write is a fixed point: the re-read domain writes the same three qualifiers again, in whatever
@@ -479,5 +481,71 @@ theorem reversing_look_would_swap_exons :
     bridgesOrigin miscAcrossOrigin = true ∧
     (prefilter ⟨miscAcrossOrigin, "misc_feature", []⟩).loc = miscAcrossOrigin ∧
     bridgesOriginReversing miscAcrossOrigin = (false, .compound [⟨1940, 2000, .rev⟩, ⟨0, 150, .rev⟩]) := by decide +kernel
+
+/-! ### `PFAM_domain` features -/
+
+/-- a `PFAMDomain` made by antiSMASH: the written feature is read back with the same Pfam data (description, identifier,
+    version, gene ontology terms as a mapping) and the same `Domain` attributes; the gene ontology ids that
+    `from_biopython` leaves in `db_xref` become a free qualifier of the re-read feature — exactly `p.x.leftXref`, the
+    sorted ids (the empty list without terms) — and apart from that qualifier the base feature has the same view.
+    `Pfam.WF`: `Dom.WF` for the `Domain` layers, `PfamX.wf`, and free qualifiers that use none of the three Pfam keys. -/
+theorem bio_roundtrip_pfam_domain (t : Bool) (p : Pfam) (h : p.WF) (b : Bio) (hb : p.toBio = .ok b) :
+    ∃ p', Pfam.fromBio b = .ok p' ∧ p'.x = { p.x with go := p.x.go.map sortGo } ∧ p'.dom = { p.dom with feat := p'.dom.feat } ∧
+      Q.get? p'.dom.feat.quals "db_xref" = some p.x.leftXref ∧
+      ({ p'.dom.feat with quals := Q.erase p'.dom.feat.quals "db_xref" } : Feat).view t = p.dom.feat.view t ∧
+      p'.dom.feat.loc = p.dom.feat.loc :=
+  pfam_roundtrip t p h b hb
+
+/-- PF00032 with its terms in mapping order on a reverse-strand feature with a note -/
+def samplePfam : Pfam :=
+  ⟨{ feat := ⟨.simple ⟨30, 90, .rev⟩, "PFAM_domain", ["a note"], [], true, none⟩, tool := "cluster_hmmer", locusTag := "ctg1_5",
+     pStart := 10, pEnd := 30, domain := some "Cytochrom_B_C", domainId := some "cluster_hmmer_ctg1_5_0001",
+     database := some "Pfam-A.hmm", detection := some "hmmscan", evalue := some "1.50E-20", score := some "12.5",
+     translation := "MAGIC" }, pfamMappingOrder⟩
+/-- non-vacuity: in scope (`domWFb` implies `Dom.WF`), written, and read back with the sorted ids left in `db_xref` -/
+theorem samplePfam_in_scope : samplePfam.WF :=
+  ⟨Dom.WF_of_b _ _ (by decide +kernel), by decide +kernel, by decide +kernel⟩
+example : (match samplePfam.toBio with
+    | .ok b => (match Pfam.fromBio b with
+      | .ok p' => Q.get? p'.dom.feat.quals "db_xref" == some ["GO:0009055", "GO:0016020", "GO:0016491"] && p'.dom.tool == "cluster_hmmer"
+      | _ => false)
+    | _ => false) = true := by decide +kernel
+
+/-! ### `aSModule` features (C14's model of the module qualifiers + the generic feature part) -/
+
+/-- a module feature made by antiSMASH, in a record that knows its domains by name: the written feature is read back
+    as the same module (domains, type, complete / starter / final / iterative — C14's `feature_roundtrip`) with the same
+    base-feature view (location, notes, free qualifiers).  The reading modelled is the repaired one (fixes/D71-C10:
+    `Module.from_biopython` hands its leftovers to `Feature.from_biopython`; the unrepaired code drops notes and free
+    qualifiers).  `ModF.WF`: made by antiSMASH, no codon start, free qualifiers use none of the module keys, what
+    `Module.__init__` checks, every domain known to the record under its name. -/
+theorem bio_roundtrip_module (t : Bool) (known : String → Option Modules.FDomain) (f : ModF) (h : f.WF known) (b : Bio)
+    (hb : f.toBio = .ok b) :
+    ∃ f', ModF.fromBio known b = .ok f' ∧ f'.m = f.m ∧ f'.feat.view t = f.feat.view t ∧ f'.feat.loc = f.feat.loc ∧
+      f'.feat.WF ∧ f'.feat.byAS = true :=
+  module_roundtrip t known f h b hb
+
+def modDomA : Modules.FDomain := ⟨"nrpspksdomains_ctg1_5_PKS_KS.1", "ctg1_5", 1⟩
+def modDomB : Modules.FDomain := ⟨"nrpspksdomains_ctg1_5_PKS_AT.1", "ctg1_5", 1⟩
+def modKnown (n : String) : Option Modules.FDomain := [modDomA, modDomB].find? (·.name == n)
+/-- a complete starter PKS module with a note -/
+def sampleModule : ModF :=
+  ⟨⟨.simple ⟨30, 330, .fwd⟩, "aSModule", ["a module note"], [], true, none⟩, ⟨[modDomA, modDomB], .pks, true, true, false, false⟩⟩
+theorem sampleModule_in_scope : sampleModule.WF modKnown := by
+  refine ⟨⟨nodupNil, rfl, by simp [sampleModule, Q.get?], by simp [sampleModule, Q.get?], ?_, fun c l' hc _ => by cases hc⟩,
+    rfl, rfl, rfl, fun k _ => rfl, rfl, ?_⟩
+  · intro p hp
+    simp only [sampleModule, Loc.parts, List.mem_cons, List.mem_nil_iff, or_false] at hp
+    subst hp
+    decide
+  · intro d hd
+    simp only [sampleModule, List.mem_cons, List.mem_nil_iff, or_false] at hd
+    rcases hd with e | e <;> subst e <;> decide +kernel
+/-- non-vacuity: it is written and read back — module and note -/
+example : (match sampleModule.toBio with
+    | .ok b => (match ModF.fromBio modKnown b with
+      | .ok f' => f'.m == sampleModule.m && Q.get? f'.feat.quals "note" == some ["a module note"] && f'.feat.byAS
+      | _ => false)
+    | _ => false) = true := by decide +kernel
 
 end ASV.C10
